@@ -482,8 +482,25 @@ impl FixtureDatabase {
     ) -> HashSet<String> {
         let mut imported_fixtures = HashSet::new();
 
-        let Some(parsed) = self.get_parsed_ast(canonical_path, content) else {
-            return imported_fixtures;
+        let parsed = match self.get_parsed_ast(canonical_path, content) {
+            Some(parsed) => parsed,
+            // The text does not parse right now (it is being edited): like the file's fixtures,
+            // the imports of the last version that did parse stay in effect - the one still in
+            // the AST cache, else the file as it is on disk
+            None => {
+                let last_valid = self
+                    .ast_cache
+                    .get(canonical_path)
+                    .map(|entry| Arc::clone(&entry.value().1));
+                let from_disk = || {
+                    let on_disk = std::fs::read_to_string(canonical_path).ok()?;
+                    self.get_parsed_ast(canonical_path, &on_disk)
+                };
+                match last_valid.or_else(from_disk) {
+                    Some(parsed) => parsed,
+                    None => return imported_fixtures,
+                }
+            }
         };
 
         let line_index = self.get_line_index(canonical_path, content);
